@@ -54,9 +54,14 @@ def main():
     out.append("|---|---|---|")
     for prop in sorted(byprop):
         items = byprop[prop]
-        c = [nm for nm, v in items if caught_by(v)]
-        miss = [nm + (" (patch no longer applies)" if "error" in v else "") for nm, v in items if not caught_by(v)]
-        out.append(f"| {prop} | {len(c)} / {len(items)} | {', '.join(miss) if miss else '-'} |")
+        real = [(nm, v) for nm, v in items if "_benign_" not in nm]
+        benign = [(nm, v) for nm, v in items if "_benign_" in nm]
+        c = [nm for nm, v in real if caught_by(v)]
+        miss = [nm + (" (patch no longer applies)" if "error" in v else "") for nm, v in real if not caught_by(v)]
+        notes = list(miss)
+        for nm, v in benign:
+            notes.append(nm + (": FALSE ALARM" if caught_by(v) else ": property-preserving change, check silent (as it should be)"))
+        out.append(f"| {prop} | {len(c)} / {len(real)} | {', '.join(notes) if notes else '-'} |")
     out += ["", END]
     p = f"{ROOT}/DESIGN.md"
     s = open(p).read()
